@@ -86,3 +86,38 @@ Proof.
     rewrite wrap128_id in Hth; [exact Hth|]. rewrite I128_MIN_val. lia. }
   repeat split; reflexivity.
 Qed.
+
+(* C01 for the purge: no token moves and the bank's obligations shrink by the purged deposits, so the solvency gap of the
+   bank grows by exactly (purged asset shares) x (asset share value); every other bank is untouched *)
+Theorem purge_gap w a b signs w' :
+  HLedger w -> dv_purge w a b signs = Ok w' ->
+  exists hb hb' ac i bl,
+    nth_bank w b = Ok hb /\ nth_bank w' b = Ok hb' /\ nth_acct w a = Ok ac /\ nth_res i (ha_la ac) = Ok bl /\
+    gap hb' = gap hb + bl_a bl * b_asv (hb_b hb) /\ gap hb <= gap hb' /\
+    (forall k, k <> b -> nth_bank w' k = nth_bank w k).
+Proof.
+  intros L H. pose proof (purge_facts _ _ _ _ _ H) as (hb0 & ac0 & i0 & bl0 & bk2 & _ & E & _ & _ & _ & _ & _).
+  destruct (purge_effect_on_totals _ _ _ _ _ L H) as (hb & hb' & ac & i & bl & B1 & B2 & A1 & _ & Hbl & T1 & T2 & _ & _ & S1 & S2 & V).
+  destruct E as (E1 & _ & E3 & _).
+  pose proof (nth_res_map hb_b _ _ _ B1) as M1. pose proof (nth_res_ok _ _ _ M1) as Ebk.
+  pose proof (Forall_nth_error _ _ _ _ (lg_sv _ L) Ebk) as [Hasv _].
+  pose proof (nth_res_map ha_la _ _ _ A1) as M2. pose proof (nth_res_ok _ _ _ M2) as Ela.
+  pose proof (Forall_nth_error _ _ _ _ (lg_wf _ L) Ela) as Hwla.
+  pose proof (Forall_nth_error _ _ _ _ Hwla (nth_res_ok _ _ _ Hbl)) as [Hba _].
+  exists hb, hb', ac, i, bl. split; [exact B1|]. split; [exact B2|]. split; [exact A1|]. split; [exact Hbl|].
+  assert (G : gap hb' = gap hb + bl_a bl * b_asv (hb_b hb)).
+  { unfold gap, gapb, NAV, Dv, Lv, Fv. rewrite V, T1, T2, S1, S2.
+    rewrite E1 in B1. apply Ok_inj in B1. subst hb0.
+    assert (F : b_ins (hb_b hb') = b_ins (hb_b hb) /\ b_grp (hb_b hb') = b_grp (hb_b hb) /\ b_prog (hb_b hb') = b_prog (hb_b hb)).
+    { unfold nth_bank in B2. rewrite E3 in B2. apply nth_res_ok in E1. unfold nth_res in B2. rewrite (nth_set_nth_same _ _ _ _ E1) in B2.
+      apply Ok_inj in B2. subst hb'. pose proof (purge_facts _ _ _ _ _ H) as (hb1 & ac1 & i1 & bl1 & bk3 & _ & E' & _ & _ & _ & _ & Hbk3).
+      destruct E' as (E1' & _ & E3' & _). 
+      assert (hb1 = hb) by (apply nth_res_ok in E1'; unfold nth_bank, nth_res in *; congruence). subst hb1.
+      assert (Heq : set_hb_b bk2 hb = set_hb_b bk3 hb).
+      { assert (Hin : nth_error (set_nth b (set_hb_b bk2 hb) (hw_banks w)) b = nth_error (set_nth b (set_hb_b bk3 hb) (hw_banks w)) b) by (rewrite <- E3, <- E3'; reflexivity).
+        rewrite (nth_set_nth_same _ _ _ _ E1), (nth_set_nth_same _ _ _ _ E1) in Hin. congruence. }
+      rewrite Heq. subst bk3. cbn. repeat split; reflexivity. }
+    destruct F as (-> & -> & ->). ring. }
+  split; [exact G|]. split; [rewrite G; nia|].
+  intros k Hk. unfold nth_bank. rewrite E3. unfold nth_res. rewrite nth_set_nth_other by lia. reflexivity.
+Qed.
